@@ -1,6 +1,7 @@
 package main
 
 import (
+	"bytes"
 	"encoding/json"
 	"fmt"
 	"github.com/hneemann/parser2/funcGen"
@@ -8,6 +9,7 @@ import (
 	"github.com/hneemann/parser2/value/export"
 	"reflect"
 	"sort"
+	"sync"
 )
 
 func init() { register("c17", cmdC17) }
@@ -141,6 +143,24 @@ func wrapped(t *Tree, shape string) *Tree {
 func c17Case(t *Tree, id int, sum *Summary, cw *CaseWriter) {
 	built := t.Build()
 	out, err := exportJSON(built)
+	c17Check(t, built, out, err, nil, id, sum, cw)
+}
+
+// c17Hist describes the position of a document in a history of exports: the document is looked at only after
+// the whole history has run; Snap is a copy of the bytes taken when the exporter returned them
+type c17Hist struct {
+	Seq        []*Tree
+	Pos        int
+	Concurrent int
+	Snap       []byte
+}
+
+type c17Repro struct {
+	History    []*Tree
+	Concurrent int
+}
+
+func c17Check(t *Tree, built value.Value, out []byte, err error, hist *c17Hist, id int, sum *Summary, cw *CaseWriter) {
 	if err != nil {
 		sum.Skipped["export-error"]++
 		return
@@ -186,9 +206,23 @@ func c17Case(t *Tree, id int, sum *Summary, cw *CaseWriter) {
 		sum.Nontriv(string(out) + "\x00" + shapes)
 	}
 	human := map[string]any{"value": t.Human(), "exported": string(out), "repro": t, "signature": c17Signature(t)}
+	if hist != nil {
+		human["repro"] = c17Repro{History: hist.Seq, Concurrent: hist.Concurrent}
+		human["history"] = fmt.Sprintf("document %d of a history of %d exports (%d goroutines), looked at after the last export", hist.Pos+1, len(hist.Seq), max(1, hist.Concurrent))
+		human["signature"] = "history:" + c17Signature(t)
+		sum.Count("history_position", fmt.Sprintf("%d/%d", hist.Pos+1, len(hist.Seq)))
+	}
 	sum.Cases[fmt.Sprint(id)] = human
 	sum.Sample(human)
 	cw.Add(fmt.Sprintf("(%d, %s, %s)", id, t.CoqXV(built), CoqBytesAsRunes(out)))
+	if hist != nil && !bytes.Equal(out, hist.Snap) {
+		sig := "history:returned-document-changed-by-later-export"
+		human["signature"] = sig
+		human["exported_when_returned"] = string(hist.Snap)
+		sum.GoViolations = append(sum.GoViolations, GoViolation{CaseID: id, What: "the document an earlier export returned was changed by a later export", Sig: sig, Human: human,
+			Expected: string(hist.Snap), Observed: string(out)})
+		return
+	}
 
 	// specification side in Go: a standard JSON parser must accept and give back the structure
 	var dec any
@@ -284,22 +318,101 @@ func c17GoOK(t *Tree) bool {
 	return reflect.DeepEqual(dec, t.expectJSON(built))
 }
 
+// runHistory exports the trees one after the other (or spread over goroutines), keeps every returned document
+// as it was handed out (no copy) and checks all of them only after the last export
+func c17RunHistory(seq []*Tree, concurrent int, id *int, sum *Summary, cw *CaseWriter) {
+	n := len(seq)
+	built := make([]value.Value, n)
+	for i, t := range seq {
+		built[i] = t.Build()
+	}
+	outs := make([][]byte, n)
+	snaps := make([][]byte, n)
+	errs := make([]error, n)
+	one := func(i int) {
+		outs[i], errs[i] = exportJSON(built[i])
+		snaps[i] = append([]byte(nil), outs[i]...)
+	}
+	if concurrent <= 1 {
+		for i := range seq {
+			one(i)
+		}
+	} else {
+		var wg sync.WaitGroup
+		for g := 0; g < concurrent; g++ {
+			wg.Add(1)
+			go func(g int) {
+				defer wg.Done()
+				for i := g; i < n; i += concurrent {
+					one(i)
+				}
+			}(g)
+		}
+		wg.Wait()
+	}
+	kind := "sequential"
+	if concurrent > 1 {
+		kind = "concurrent"
+	}
+	sum.Count("histories", fmt.Sprintf("%s:%d", kind, n))
+	for i, t := range seq {
+		*id++
+		c17Check(t, built[i], outs[i], errs[i], &c17Hist{Seq: seq, Pos: i, Concurrent: concurrent, Snap: snaps[i]}, *id, sum, cw)
+	}
+}
+
+// histories with document sizes decreasing, increasing, equal or in random order
+func (r *Rng) genExportHistory(pattern int) []*Tree {
+	k := 2 + r.Pick(5)
+	var seq []*Tree
+	if pattern == 2 {
+		t := r.GenTree(1+r.Pick(4), true, 8)
+		for i := 0; i < k; i++ {
+			seq = append(seq, t)
+		}
+		return seq
+	}
+	for i := 0; i < k; i++ {
+		t := r.GenTree(1+r.Pick(4), true, 8)
+		if r.Chance(0.3) {
+			r.addWraps(t, 0.2)
+		}
+		seq = append(seq, t)
+	}
+	if pattern < 2 {
+		size := func(t *Tree) int { out, _ := exportJSON(t.Build()); return len(out) }
+		sort.SliceStable(seq, func(i, j int) bool {
+			if pattern == 0 {
+				return size(seq[i]) > size(seq[j])
+			}
+			return size(seq[i]) < size(seq[j])
+		})
+	}
+	return seq
+}
+
 func cmdC17(seed int64, tier, outDir string) {
-	n := 500
+	n := 420
 	if tier == "thorough" {
 		n = 20000
 	}
 	r := NewRng(seed)
 	sum := NewSummary("C17", seed, tier)
-	sum.Rule = "value trees (depth<=5, lists and maps in every representation the expression language builds, scalars of all kinds, strings/keys from a stratified Unicode generator incl. quote, backslash, C0 controls, U+2028/9, astral) exported through the real JSON exporter; Format/Link wrapper stacks of depth 0-4 (every order; Format with nil/string/map/closure style, Cell, ColSpan) around scalars, lists, maps, list elements and map values at every level; non-trivial = the tree contains at least one character outside printable ASCII or a quote/backslash, or a list/map under a wrapper stack of depth >= 2; distinct by exported bytes and wrapper shapes"
+	sum.Rule = "value trees (depth<=5, lists and maps in every representation the expression language builds, scalars of all kinds, strings/keys from a stratified Unicode generator incl. quote, backslash, C0 controls, U+2028/9, astral) exported through the real JSON exporter; Format/Link wrapper stacks of depth 0-4 (every order; Format with nil/string/map/closure style, Cell, ColSpan) around scalars, lists, maps, list elements and map values at every level; non-trivial = the tree contains at least one character outside printable ASCII or a quote/backslash, or a list/map under a wrapper stack of depth >= 2; distinct by exported bytes and wrapper shapes; history mode: sequences of 2-6 exports on one goroutine (sizes decreasing, increasing, equal, random) and some spread over 2-4 goroutines, every returned document kept without copying and checked only after the last export (byte-identical to what was returned, plus all checks above)"
 	cw := NewCaseWriter(outDir, "From P2 Require Import Base.Prelude Exp.Json Run.C17Run.", "c17_case", "c17_id", "c17_im", "c17_is", 250)
 	id := 0
 	if optReplay != "" {
-		var t Tree
-		if err := json.Unmarshal(loadReplayCase(), &t); err != nil {
-			fatal("replay case: %v", err)
+		var rp c17Repro
+		if err := json.Unmarshal(loadReplayCase(), &rp); err == nil && len(rp.History) > 0 {
+			hid := 0
+			c17RunHistory(rp.History, rp.Concurrent, &hid, sum, cw)
+		} else {
+			var t Tree
+			if err := json.Unmarshal(loadReplayCase(), &t); err != nil {
+				fatal("replay case: %v", err)
+			}
+			c17Case(&t, 1, sum, cw)
 		}
-		c17Case(&t, 1, sum, cw)
 		cw.Flush()
 		sum.CaseFiles = cw.files
 		sum.Write(outDir)
@@ -340,6 +453,31 @@ func cmdC17(seed int64, tier, outDir string) {
 			r.addWraps(t, []float64{0.1, 0.25, 0.5}[r.Pick(3)])
 		}
 		c17Case(t, id, sum, cw)
+	}
+	// history mode: several exports on one goroutine (and a few concurrent ones); every returned document is kept
+	// and looked at only after the whole history
+	strs := func(ss ...string) *Tree {
+		t := &Tree{Kind: "list", Repr: "eager"}
+		for _, x := range ss {
+			t.Items = append(t.Items, &Tree{Kind: "str", S: x})
+		}
+		return t
+	}
+	big, small := strs("aaaaaaaa", "bbbbbbbb", "cccccccc", "dddddddd"), strs("x")
+	for _, seq := range [][]*Tree{{big, small}, {small, big}, {big, big, big}, {big, small, strs("yy", "z")}, {strs("a\"b"), strs("c"), strs("")}} {
+		c17RunHistory(seq, 0, &id, sum, cw)
+	}
+	nh := 40
+	if tier == "thorough" {
+		nh = 1500
+	}
+	nh *= optBoost
+	for h := 0; h < nh; h++ {
+		conc := 0
+		if h%8 == 7 {
+			conc = 2 + r.Pick(3)
+		}
+		c17RunHistory(r.genExportHistory(h%4), conc, &id, sum, cw)
 	}
 	cw.Flush()
 	sum.CaseFiles = cw.files
